@@ -36,7 +36,7 @@ def make_case(rng, i):
     prof = dict(PROFILE)
     prof["allow"] = rng.random() < 0.85
     case = F.basic_case(rng, prof, hist=(3, 10), drivers=("sync", "inloop"), p_unknown=0.02,
-                        async_modes=("none", "none", "all", "half"))
+                        async_modes=("none", "none", "all", "half"), p_style=0.2)
     case["send_budget"] = rng.choice([3, 6, 10])
     if rng.random() < 0.15:
         # one injected failure (Exception or BaseException, e.g. cancellation) somewhere in the history
